@@ -124,6 +124,25 @@ fn sub_structural(input: &[u8], st: &mut Stats) -> R {
     exercise(&bytes, st, &|| format!("{}structural edits: {:?}", m.render(), kinds))
 }
 
+/// `cli-files`: the statement's last observation point - the process exit status of rspirv-dis - on
+/// text files (a module written out as numbers in the usual spellings, its disassembly, JSON, UTF-16,
+/// base64-looking text), on structural variations of modules and on raw bytes; the oracle is C20's
+/// (no panic message, status 0, stdout = the library's answer)
+fn sub_cli_files(input: &[u8], st: &mut Stats) -> R {
+    let k = input.first().copied().unwrap_or(0) % 4;
+    let rest = if input.is_empty() { input } else { &input[1..] };
+    match k {
+        0 | 1 => crate::checks::c20::sub_text_files(rest, st),
+        2 => crate::checks::c20::sub_structural(rest, st),
+        _ => {
+            let mut cs = Cs::new(rest);
+            let n = cs.below(96);
+            let b: Vec<u8> = (0..n).map(|_| match cs.below(4) { 0 => cs.u8(), 1 => b'0' + cs.below(10) as u8, 2 => b"x,X \n"[cs.below(5)], _ => b'a' + cs.below(6) as u8 }).collect();
+            crate::checks::c20::check_file(&b, st, &|| "digits, hex letters and separators".into())
+        }
+    }
+}
+
 /// header + pseudo-instructions: declared opcodes with arbitrary operand words.
 fn sub_junk(input: &[u8], st: &mut Stats) -> R {
     let mut cs = Cs::new(input);
@@ -429,6 +448,7 @@ pub const SUBS: &[Sub] = &[
     Sub { name: "edge-ids", f: sub_edge_ids },
     Sub { name: "reused-loader", f: sub_reused_loader },
     Sub { name: "structural-variations", f: sub_structural },
+    Sub { name: "cli-files", f: sub_cli_files },
 ];
 
 pub fn run(ctx: &Ctx) {
@@ -443,6 +463,8 @@ pub fn run(ctx: &Ctx) {
     drive_random(ctx, &SUBS[7], ctx.n(10_000, 5_000_000), 4000);
     drive_random(ctx, &SUBS[8], ctx.n(10_000, 5_000_000), 2400);
     drive_random(ctx, &SUBS[9], ctx.n(30_000, 10_000_000), 1200);
+    drive_random_with(ctx, &SUBS[10], ctx.n(600, 150_000), 1000, 250);
+    crate::checks::c20::cleanup();
     if !ctx.quick() && !ctx.failed() {
         crate::fuzzing::drive_fuzz(ctx, "bytes", 1_000_000);
         crate::fuzzing::drive_fuzz(ctx, "modules", 300_000);
